@@ -238,6 +238,13 @@ def geometry_specs(rng, thorough):
             n = len(dx) * len(dy)
             specs.append({'label': 'gaps-multiscale', 'kind': 'rect', 'dx': dx, 'dy': dy, 'dz': [10.0, 10.0],
                           'origin': [0.0, 0.0, 0.0], 'delete': sorted(rng.sample(range(n), rng.randint(2, max(2, n // 4))))})
+    # 5c. geometries whose quadtree has EMPTY quadrants at the root, so that quadtree.leaf() returns the root itself and the
+    #     neighbour wave runs on the root's own element list (= geo.columnlist): a single row of columns (vertical slice
+    #     model: all centres on the mid-line are filed in the lower quadrants) and an L-shaped 2 x 2 grid
+    specs.append({'label': 'single-row', 'kind': 'rect', 'dx': [dyadic(rng, 10, 80) for _ in range(rng.randint(4, 7))],
+                  'dy': [dyadic(rng, 20, 60)], 'dz': [10.0, 10.0, 20.0], 'origin': [0.0, 0.0, 0.0]})
+    specs.append({'label': 'L-shape', 'kind': 'rect', 'dx': [100.0, 100.0], 'dy': [100.0, 100.0], 'dz': [10.0, 10.0],
+                  'origin': [0.0, 0.0, 0.0], 'delete': [rng.choice([0, 1, 2, 3])]})
     # 6. shipped geometries
     if thorough:
         names = shipped
